@@ -224,6 +224,14 @@ pub fn exec_item(prop: Prop, item: &Item) -> Result<ItemResult, (Case, String)> 
     let mut runs = Vec::new();
     match prop {
         Prop::C04 => {
+            struct Neutral;
+            impl Drop for Neutral {
+                fn drop(&mut self) {
+                    crate::interp::set_layout_neutral(false);
+                }
+            }
+            crate::interp::set_layout_neutral(true);
+            let _neutral = Neutral;
             // (i)+(ii): every filling; (iii): traces identical across fillings and routes
             let mut first: Option<(Fill, Outcome)> = None;
             for fill in ALL_FILLS {
@@ -387,6 +395,14 @@ pub fn exec_replay(prop: Prop, case: &Case) -> Result<(u64, u64), String> {
     };
     match prop {
         Prop::C04 => {
+            struct Neutral;
+            impl Drop for Neutral {
+                fn drop(&mut self) {
+                    crate::interp::set_layout_neutral(false);
+                }
+            }
+            crate::interp::set_layout_neutral(true);
+            let _neutral = Neutral;
             let o = run_case(case, opts).map_err(|f| f.msg)?;
             let mut base = case.clone();
             base.fill = Fill::Leave;
